@@ -296,12 +296,60 @@ def stepHist (args pyout : Sexp) : String :=
     stepHistD shE dataE wE selE r0E r1E nE logE (do some (← dtype? xd, ← dtype? wd)) pyout
   | _ => bad "hist-arity"
 
+/-- `(hist2 (sh xdata ydata weights sel rx0 rx1 ry0 ry1 nx ny logx logy) pyout)`: 2-d histogram, cells
+row-major.  Log ranges must be strictly positive (modelled domain). -/
+def stepHist2 (args pyout : Sexp) : String :=
+  match args with
+  | .list [shE, xE, yE, wE, selE, rx0E, rx1E, ry0E, ry1E, nxE, nyE, lxE, lyE] =>
+    match shE.toNats?, vals? xE, vals? yE, rat? rx0E, rat? rx1E, rat? ry0E, rat? ry1E with
+    | some sh, some xflat, some yflat, some rx0, some rx1, some ry0, some ry1 =>
+      match nxE.toNat?, nyE.toNat?, lxE.toBool?, lyE.toBool? with
+      | some nx, some ny, some lx, some ly =>
+        let xdata := dataFn sh xflat
+        let wO : Option (List Rat) := match wE with
+          | .atom "N" => some (xflat.map fun _ => 1)
+          | e => do (← e.toList?).mapM rat?
+        let selO : Option (Idx → Bool) := match selE with
+          | .atom "N" => some fun _ => true
+          | e => (sel? e).map fun s => s.eval sh xdata
+        let xlo := min rx0 rx1; let xhi := max rx0 rx1
+        let ylo := min ry0 ry1; let yhi := max ry0 ry1
+        if (lx && xlo ≤ 0) || (ly && ylo ≤ 0) then bad "hist2-log-range-not-positive" else
+        match wO, selO with
+        | some ws, some m =>
+          let idxs := allIdx sh
+          let xs : List (Val × Val × Rat) := ((idxs.zip (xflat.zip (yflat.zip ws))).filterMap fun p =>
+            if m p.1 then some p.2 else none)
+          let kept := hist2Keep xlo xhi ylo yhi xs
+          let total := specHist2Total rx0 rx1 ry0 ry1 xs
+          let spec := specHist2 rx0 rx1 ry0 ry1 nx ny lx ly xs
+          let model := implHist2 rx0 rx1 ry0 ry1 nx ny lx ly xs
+          let inP := kept.isEmpty ||
+            (axisClean xlo xhi nx lx (kept.map (·.1)) && axisClean ylo yhi ny ly (kept.map (·.2.1)))
+          let py : Option (List Rat) := do (← pyout.toList?).mapM rat?
+          let (tot, perbin) := match py with
+            | some b => (b.length == nx * ny && b.sum == total, b == spec)
+            | none => (false, false)
+          let ok := tot && perbin
+          let implok := model.sum == total && (!inP || model == spec)
+          let br := (if lx then "log" else "lin") ++ "-" ++ (if ly then "log" else "lin") ++
+            (if kept.isEmpty then "-nokept" else if !inP then "-edge" else "")
+          Sexp.toString (Sexp.list [.atom "r", .list [.atom "impl", .list (model.map ofRat)],
+            .list [.atom "ok", ofBool ok], .list [.atom "implok", ofBool implok],
+            .list [.atom "p", ofBool inP], .list [.atom "br", .atom br],
+            .list [.atom "tot", ofBool tot], .list [.atom "bin", ofBool perbin]])
+        | _, _ => bad "hist2-weights-or-sel"
+      | _, _, _, _ => bad "hist2-args"
+    | _, _, _, _, _, _, _ => bad "hist2-args"
+  | _ => bad "hist2-arity"
+
 def step (line : String) : String :=
   match Sexp.parse line with
   | some (.list [.atom "stat", args, pyout]) => stepStat args pyout
   | some (.list [.atom "prof", args, pyout]) => stepStat args pyout
   | some (.list [.atom "hist", args, pyout]) => stepHist args pyout
   | some (.list [.atom "histstate", args, pyout]) => stepHist args pyout
+  | some (.list [.atom "hist2", args, pyout]) => stepHist2 args pyout
   | _ => bad "unknown-family"
 
 def main : IO Unit := driverLoop step
